@@ -26,6 +26,10 @@ pub enum Build {
     Purge,
     /// `n` live entries (or `n` tombstones) from `origins` origins via bulk requests on alternating sources
     Bulk { n: usize, origins: usize, base_secs: u64, delete: bool },
+    /// one bulk request of 2-12 entries on keys 1-12 whose storage call fails: nothing written (fault 0), the first k
+    /// written (1), an arbitrary subset written (2). The sender applies what storage reports as written; what that is, is
+    /// read from the store's own write log (after the seeded change `C19q`)
+    FaultyBulk { n: usize, secs: u64, delete: bool, fault: u8, arg: u64, source: usize },
 }
 
 #[derive(Debug, Clone)]
@@ -88,9 +92,17 @@ impl Prop for Transfer {
         let mut build = vec![];
         let stages = src.below(6);
         for _ in 0..stages {
-            match src.weighted(&[6, 2, 2]) {
+            match src.weighted(&[6, 2, 2, 2]) {
                 0 => build.push(Build::Ops(gen_ops(src))),
                 1 => build.push(Build::Purge),
+                3 => build.push(Build::FaultyBulk {
+                    n: 2 + src.below(11),
+                    secs: *src.pick(&[100_000u64, 50_000_100, 60_020_000]),
+                    delete: src.chance(1, 3),
+                    fault: src.below(3) as u8,
+                    arg: src.word(),
+                    source: src.below(2),
+                }),
                 _ => {
                     let n = match src.weighted(&[5, 3, 1]) {
                         0 => 1 + src.below(50),
@@ -121,6 +133,8 @@ impl Prop for Transfer {
             "build": case.build.iter().map(|b| match b {
                 Build::Ops(ops) => json!(ops.iter().map(|(o, s)| { let mut j = o.json(); j["source"] = json!(s); j }).collect::<Vec<_>>()),
                 Build::Purge => json!("purge"),
+                Build::FaultyBulk { n, secs, delete, fault, arg, source } => json!({(if *delete { "bulk_delete_whose_storage_call_fails" } else { "bulk_set_whose_storage_call_fails" }): n, "secs": secs, "source": source,
+                    "storage": match fault { 0 => "writes nothing".to_string(), 1 => format!("writes the first {} entries", (*arg as usize) % *n), _ => format!("writes the entries of mask {:#x}", arg & 0xFFF) }}),
                 Build::Bulk { n, origins, base_secs, delete } => json!({(if *delete { "bulk_tombstones" } else { "bulk_live_entries" }): n, "origins": origins, "base_secs": base_secs}),
             }).collect::<Vec<_>>(),
         })
@@ -128,8 +142,8 @@ impl Prop for Transfer {
 
     fn rule(&self) -> &'static str {
         "sender keyspace states built on a real KeyspaceGroup by 0-5 stages: op histories (0-13 inserts/deletes, 1-4 \
-         origins, both sources, stamps stepping up to 2 h), purges, and bulk loads of 1-20000 live entries or tombstones from 1-40 \
-         origins; the state is fetched with the real ReplicationClient::get_state from the real ReplicationService \
+         origins, both sources, stamps stepping up to 2 h), purges, bulk loads of 1-20000 live entries or tombstones from 1-40 \
+         origins, and bulk requests of 2-12 entries whose storage call fails (nothing / a prefix / a subset written; the reference takes over what the store's write log shows); the state is fetched with the real ReplicationClient::get_state from the real ReplicationService \
          over the in-process transport, at the end and after a generated subset of the stages (so a fetch can follow a \
          purge or a failed request directly); oracle: received set == the sender's set at that moment in live ids, \
          tombstones and stamps, in will_apply on a probe grid (every key and an unused key x every held stamp +-1 \
@@ -182,6 +196,7 @@ async fn run(case: &Case) -> Outcome {
     let mut reference = OrSWotSet::<2>::default();
     let mut client = ReplicationClient::<ModelStore>::new(Clock::new(2), Channel::connect(addr));
     let mut fetches = 0;
+    let mut faulty = 0;
     for (stage, b) in case.build.iter().enumerate() {
         match b {
             Build::Ops(ops) => {
@@ -203,6 +218,40 @@ async fn run(case: &Case) -> Outcome {
                 let m = group.get_or_create_keyspace(ks).await;
                 let _ = m.send(e2::msg_purge()).await;
                 reference.purge_old_deletes();
+            },
+            Build::FaultyBulk { n, secs, delete, fault, arg, source } => {
+                let m = group.get_or_create_keyspace(ks).await;
+                let ops: Vec<SetOp> = (0..*n).map(|i| SetOp { key: 1 + i as u64, stamp: Stamp { secs: *secs, frac: 0, counter: i as u16, node: 33 }, delete: *delete }).collect();
+                origins.insert(33);
+                sources.insert(*source);
+                let log_before = {
+                    let mut g = store.inner.lock();
+                    let next = g.mutating_calls;
+                    g.faults.insert(next, match fault {
+                        0 => crate::store::Fault::FailBefore,
+                        1 => crate::store::Fault::Partial((*arg as usize) % *n),
+                        _ => crate::store::Fault::Subset(*arg),
+                    });
+                    g.log.len()
+                };
+                if *delete {
+                    let _ = m.send(e2::msg_multi_del(*source, ops.iter().map(|o| e2::meta(o.key, o.stamp)).collect())).await;
+                } else {
+                    let _ = m.send(e2::msg_multi_set(*source, ops.iter().map(|o| e2::doc(o.key, o.stamp, 0)).collect())).await;
+                }
+                // what the sender's storage says it wrote is what the sender's set must have taken over
+                let mut written: Vec<SetOp> = {
+                    let mut g = store.inner.lock();
+                    g.faults.clear();
+                    g.log[log_before..].iter().filter(|(k, _, _, _)| k == ks).map(|(_, id, ts, bytes)| SetOp { key: *id, stamp: Stamp::of(*ts), delete: bytes.is_none() }).collect()
+                };
+                written.sort_by_key(|o| o.stamp);
+                for op in &written {
+                    if reference.will_apply(op.key, op.stamp.hlc()) {
+                        apply(&mut reference, *source, op);
+                    }
+                }
+                faulty += 1;
             },
             Build::Bulk { n, origins: o, base_secs, delete } => {
                 let m = group.get_or_create_keyspace(ks).await;
@@ -308,6 +357,9 @@ async fn run(case: &Case) -> Outcome {
     }
     if fetches > 0 {
         labels.push("several_fetches");
+    }
+    if faulty > 0 {
+        labels.push("bulk_request_with_a_storage_failure");
     }
     let nontrivial = !v.dead.is_empty() && origins.len() >= 2 && sources.len() == 2;
     let _ = Arc::new(());
